@@ -49,6 +49,10 @@ type Transfer struct {
 	Users           map[int32]mapping
 	Groups          map[int32]mapping
 	retouchDirPerms bool
+
+	// Protected reports whether the user's filter rules exclude name,
+	// in which case --delete must leave it alone. May be nil.
+	Protected func(name string) bool
 }
 
 func (rt *Transfer) listOnly() bool { return rt.Dest == "" }
